@@ -245,7 +245,7 @@ impl Ctx {
 		// ownership events (C16): only for non-test functions that touch an ownership-sensitive primitive
 		let mut own = String::new();
 		if let (Some(b), false) = (body, test_only) {
-			let mut v = OwnEvents { evs: Vec::new() };
+			let mut v = OwnEvents { evs: Vec::new(), ren: Vec::new(), bound: 0 };
 			v.visit_block(b);
 			if v.evs.iter().any(|(n, _)| own_sensitive(n)) {
 				let items: Vec<String> = v
@@ -262,7 +262,7 @@ impl Ctx {
 		}
 		// the kill-flag protocol (C12): the full call record of every function of an `impl RawLock`
 		if let (Some(b), false, true) = (body, test_only, self.want_calls) {
-			let mut v = OwnEvents { evs: Vec::new() };
+			let mut v = OwnEvents { evs: Vec::new(), ren: Vec::new(), bound: 0 };
 			v.visit_block(b);
 			let items: Vec<String> = v
 				.evs
@@ -349,37 +349,90 @@ fn own_sensitive(name: &str) -> bool {
 }
 
 fn squash(ts: TokenStream) -> String {
-	ts.to_string().chars().filter(|c| !c.is_whitespace()).collect()
+	squash_ren(ts, &[])
+}
+
+/// token text without whitespace; identifiers bound by an enclosing `for` pattern are replaced by
+/// their positional names (`$0`, `$1`, …), so that renaming a loop variable does not change a record
+fn squash_ren(ts: TokenStream, ren: &[(String, String)]) -> String {
+	fn flat(ts: TokenStream, ren: &[(String, String)], out: &mut String) {
+		for t in ts {
+			match t {
+				TokenTree::Ident(i) => {
+					let s = i.to_string();
+					match ren.iter().rev().find(|(n, _)| *n == s) {
+						Some((_, r)) => out.push_str(r),
+						None => out.push_str(&s),
+					}
+				}
+				TokenTree::Punct(p) => out.push(p.as_char()),
+				TokenTree::Literal(l) => out.extend(l.to_string().chars().filter(|c| !c.is_whitespace())),
+				TokenTree::Group(g) => {
+					let (o, c) = match g.delimiter() {
+						Delimiter::Parenthesis => ("(", ")"),
+						Delimiter::Brace => ("{", "}"),
+						Delimiter::Bracket => ("[", "]"),
+						Delimiter::None => ("", ""),
+					};
+					out.push_str(o);
+					flat(g.stream(), ren, out);
+					out.push_str(c);
+				}
+			}
+		}
+	}
+	let mut out = String::new();
+	flat(ts, ren, &mut out);
+	out
+}
+
+struct PatIdents(Vec<String>);
+impl<'ast> Visit<'ast> for PatIdents {
+	fn visit_pat_ident(&mut self, p: &'ast syn::PatIdent) {
+		self.0.push(p.ident.to_string());
+	}
 }
 
 /// the calls of a body in evaluation order (operands before the call), each with its receiver or
 /// first argument as text; `for` loops are bracketed by ("for", "<pat>in<expr>") … ("endfor", "")
 struct OwnEvents {
 	evs: Vec<(String, String)>,
+	/// loop variables in scope: (name, positional name)
+	ren: Vec<(String, String)>,
+	bound: usize,
 }
 impl<'ast> Visit<'ast> for OwnEvents {
 	fn visit_expr_method_call(&mut self, e: &'ast syn::ExprMethodCall) {
 		syn::visit::visit_expr_method_call(self, e);
-		self.evs.push((e.method.to_string(), squash(e.receiver.to_token_stream())));
+		self.evs.push((e.method.to_string(), squash_ren(e.receiver.to_token_stream(), &self.ren)));
 	}
 	fn visit_expr_call(&mut self, e: &'ast syn::ExprCall) {
 		syn::visit::visit_expr_call(self, e);
 		if let syn::Expr::Path(p) = &*e.func {
 			let segs: Vec<String> = p.path.segments.iter().map(|s| s.ident.to_string()).collect();
 			let n = if segs.len() >= 2 { segs[segs.len() - 2..].join("::") } else { segs.join("::") };
-			let a = e.args.first().map(|a| squash(a.to_token_stream())).unwrap_or_default();
+			let a = e.args.first().map(|a| squash_ren(a.to_token_stream(), &self.ren)).unwrap_or_default();
 			self.evs.push((n, a));
 		}
 	}
 	fn visit_expr_for_loop(&mut self, e: &'ast syn::ExprForLoop) {
 		self.visit_expr(&e.expr);
-		self.evs.push(("for".into(), format!("{}in{}", squash(e.pat.to_token_stream()), squash(e.expr.to_token_stream()))));
+		let iter = squash_ren(e.expr.to_token_stream(), &self.ren);
+		let mut pi = PatIdents(Vec::new());
+		pi.visit_pat(&e.pat);
+		let depth = self.ren.len();
+		for n in pi.0 {
+			self.ren.push((n, format!("${}", self.bound)));
+			self.bound += 1;
+		}
+		self.evs.push(("for".into(), format!("{}in{}", squash_ren(e.pat.to_token_stream(), &self.ren), iter)));
 		self.visit_block(&e.body);
+		self.ren.truncate(depth);
 		self.evs.push(("endfor".into(), String::new()));
 	}
 	fn visit_expr_if(&mut self, e: &'ast syn::ExprIf) {
 		self.visit_expr(&e.cond);
-		self.evs.push(("if".into(), squash(e.cond.to_token_stream())));
+		self.evs.push(("if".into(), squash_ren(e.cond.to_token_stream(), &self.ren)));
 		self.visit_block(&e.then_branch);
 		if let Some((_, els)) = &e.else_branch {
 			self.evs.push(("else".into(), String::new()));
@@ -391,7 +444,7 @@ impl<'ast> Visit<'ast> for OwnEvents {
 		if let Some(x) = &e.expr {
 			self.visit_expr(x);
 		}
-		self.evs.push(("return".into(), e.expr.as_ref().map(|x| squash(x.to_token_stream())).unwrap_or_default()));
+		self.evs.push(("return".into(), e.expr.as_ref().map(|x| squash_ren(x.to_token_stream(), &self.ren)).unwrap_or_default()));
 	}
 	fn visit_macro(&mut self, m: &'ast syn::Macro) {
 		let mut names = Vec::new();
@@ -706,7 +759,7 @@ fn main() {
 	}
 	// the call and operand names HLV/Static/OwnRules.lean and KillRules.lean mention (C16 / C12 records)
 	for n in [
-		"ev:Box::from_raw", "ev:Box::leak", "ev:Box::new", "ev:MaybeUninit::uninit", "ev:UnsafeCell::new", "ev:Vec::new", "ev:as_ref", "ev:assume_init", "ev:cast", "ev:cast_const", "ev:cast_mut", "ev:clear", "ev:data_mut", "ev:data_ref", "ev:drop", "ev:endfor", "ev:enumerate", "ev:for", "ev:get", "ev:get_mut", "ev:get_ptrs", "ev:guard", "ev:handle_unwind", "ev:into_inner", "ev:into_iter", "ev:is_poisoned", "ev:iter_mut", "ev:lock", "ev:lock_exclusive", "ev:lock_shared", "ev:map", "ev:mem::forget", "ev:mem::transmute", "ev:poison", "ev:ptr::drop_in_place", "ev:raw_try_write", "ev:raw_unlock_write", "ev:raw_write", "ev:read_guard", "ev:sort_by_key", "ev:try_lock", "ev:try_lock_exclusive", "ev:try_lock_shared", "ev:unlock", "ev:unlock_exclusive", "ev:unlock_shared", "ev:unwrap_unchecked", "ev:write", "op:&mutself.locks", "op:(i,lock)inself.into_iter().enumerate()", "op:(i,lock)inself.iter_mut().enumerate()", "op:boxed", "op:e", "op:g", "op:guards", "op:guards[0]", "op:guards[i]", "op:iin0..N", "op:lock", "op:locks", "op:self", "op:self.data.cast_mut()", "op:self.locks", "op:self[0]", "op:self[i]",
+		"ev:Box::from_raw", "ev:Box::into_raw", "ev:UnsafeCell::raw_get", "ev:Box::leak", "ev:Box::new", "ev:MaybeUninit::uninit", "ev:UnsafeCell::new", "ev:Vec::new", "ev:as_ref", "ev:assume_init", "ev:cast", "ev:cast_const", "ev:cast_mut", "ev:clear", "ev:data_mut", "ev:data_ref", "ev:drop", "ev:endfor", "ev:enumerate", "ev:for", "ev:get", "ev:get_mut", "ev:get_ptrs", "ev:guard", "ev:handle_unwind", "ev:into_inner", "ev:into_iter", "ev:is_poisoned", "ev:iter_mut", "ev:lock", "ev:lock_exclusive", "ev:lock_shared", "ev:map", "ev:mem::forget", "ev:mem::transmute", "ev:poison", "ev:ptr::drop_in_place", "ev:raw_try_write", "ev:raw_unlock_write", "ev:raw_write", "ev:read_guard", "ev:sort_by_key", "ev:try_lock", "ev:try_lock_exclusive", "ev:try_lock_shared", "ev:unlock", "ev:unlock_exclusive", "ev:unlock_shared", "ev:unwrap_unchecked", "ev:write", "op:&mutself.locks", "op:($0,$1)inself.into_iter().enumerate()", "op:($0,$1)inguards.iter_mut().zip(self.iter())", "op:($0,$1)inguards.iter_mut().zip(self.iter_mut())", "op:($0,$1)inguards.iter_mut().zip(self.into_iter())", "op:$0", "op:$1", "ev:zip", "ev:iter", "op:($0,$1)inself.iter_mut().enumerate()", "op:boxed", "op:e", "op:g", "op:guards", "op:guards[0]", "op:guards[$0]", "op:$0in0..N", "op:locks", "op:self", "op:self.data.cast_mut()", "op:self.locks", "op:self[0]", "op:self[$0]",
 	] {
 		c.syms.get(n);
 	}
